@@ -246,7 +246,9 @@ def _count_frame(n_in, kind, dups):
     elif kind == "float":
         idx = pd.Index([v / 2 for v in base], name="ix")
     elif kind == "str":
-        idx = pd.Index(pd.array([f"k{v:03d}" for v in base], dtype="string[pyarrow]"), name="ix")
+        # the default string index of this pandas (an explicit ``string[pyarrow]`` extension index with repeated labels is rejected by the
+        # pinned dask's sorted_division_locations - ArrowExtensionArray has no .nonzero - before any repartitioning happens)
+        idx = pd.Index([f"k{v:03d}" for v in base], name="ix")
     else:
         idx = pd.Index(base, name="ix")
     return pd.DataFrame({"rid": np.arange(n), "x": np.arange(n) * 0.5}, index=idx)
